@@ -1,6 +1,6 @@
 """C16 configuration for ./check"""
 CONF = {
-    'interesting': ['timeout-retry', 'temp-error-retry', 'terminal-error', 'cancel-mid-send', 'buffer-full', 'zero-copy', 'concat'],
+    'interesting': ['timeout-retry', 'temp-error-retry', 'terminal-error', 'cancel-mid-send', 'buffer-full', 'zero-copy', 'concat', 'option-flip'],
     'rule': ('A case = a data-source history (packets with capture info, 16 kinds of error values: timeout-class, '
              'transient, end-of-input, wrapped ones; plain / zero-copy buffer-reusing / concatenated sources; NoCopy on/off) '
              'plus a harness script (next, start, restart, grant:n, grantall, recv:n, cancel, fin, fcan:n). The scripted '
@@ -23,7 +23,7 @@ CONF = {
     'trusted_base': ['model: coq/Model/C16Model.v is a hand transcription of packet.go:786-809,918-958,963-994,1024-1035 (repaired tree)',
                      'the error-feature table `feat` (errors.As net.Error/Timeout, errors.Is sentinels, "use of closed file") for the 16 scripted error values, validated by the correspondence'],
     'false_alarms': ['first run: oracle clause C16:cancel counted reads entered between the harness deciding to cancel and cancel() returning (free-running fcan cases); machinery corrected (flag set after cancel() returns), not a defect'],
-    'explanation': ('C16_pull, C16_chan (+progress), C16_cancel, C16_immutable(_chan), C16_guard are proved for all histories, all event '
+    'explanation': ('C16_pull, C16_chan (+progress), C16_cancel, C16_immutable(_chan, _flips), C16_guard(_every_call, _second_call) are proved for all histories, all event '
                     'lists (interleavings, consumer speeds, select choices, cancellation points) by invariants over the transition '
                     'system; C16_guard_refuted keeps the witness for the constructor as it was (zeroCopy never set, fixed in the '
                     'repository worktree). The correspondence ties the model to packet.go through scripted sources/consumers.'),
